@@ -269,10 +269,10 @@ class CallMixin:
     # ------------------------------------------------------------------ specification functions
     def spec_call(self, name, args, path, node=None):
         ctx = self.ctx
-        fi = ctx.specs[name]
         prim = getattr(self, 'prim_' + name, None)
         if prim is not None:
             return prim(args, path, node)
+        fi = ctx.specs[name]
         if name not in ctx.spec_recursive:
             ctx.spec_mode += 1
             try:
@@ -285,7 +285,13 @@ class CallMixin:
             self.define_spec_rec(name, fi, path, hkey)
         decl, kinds, rk = ctx.recfuncs[hkey]
         ts = [self.coerce(a, k).t for a, k in zip(args, kinds)]
-        return ctx.val_of(rk, decl(*ts))
+        res = ctx.val_of(rk, decl(*ts))
+        if rk[0] == 'seq' and rk[1][0] == 'ref':
+            # typing of a list-valued specification function: its elements are objects, not None
+            res.elems_nonnull = True
+            ctx.assumptions.add(f'typing: the elements of the list-valued specification function {name} are objects (not None); '
+                                'validated natively by the bounded stand-in')
+        return res
 
     def define_spec_rec(self, name, fi, path, hkey):
         ctx = self.ctx
